@@ -8,6 +8,9 @@
 //	                                      dec=rej | dec=panic
 //	stack=S kind=K op=cap data=<hex>   => as op=dec; data is a message captured from a real handshake
 //	                                      (phase `captured`, see capture.go)
+//	stack=S kind=clientHello op=emit <client configuration>
+//	                                   => mk=err | mk=ok n=<k> data=<hex> + as op=dec: what the real client,
+//	                                      run alone on that configuration, put on the wire (phase `emit`, see emit.go)
 //
 // enc: build the message from the fields, marshal it, unmarshal the result with a fresh object.
 // dec: unmarshal the bytes; `raw` = marshal() of the same object returns the input (the cache the
@@ -102,6 +105,10 @@ func (d *driver) replay(path string) {
 			h, _ := hx.KV(c, "data")
 			data := hx.UnHex(h)
 			d.t.Line(fmt.Sprintf("stack=%s kind=%s op=cap data=%s", stack, kind, hx.Hex(data)), runDec(stack, kind, data))
+		case "emit":
+			if kind == "clientHello" {
+				d.emitCase(stack, parseEmit(c))
+			}
 		}
 	}
 }
@@ -123,6 +130,8 @@ func main() {
 	case "", "codec":
 		d.witnesses()
 		d.generated(budget)
+	case "emit":
+		d.emitted(budget)
 	case "captured":
 		d.captured()
 	case "search": // violation search after a broken proof / disagreement: bounded, other seed
